@@ -76,6 +76,12 @@ def lin(t):
         return const(t[1])
     if k == 'cast':
         return lin(t[1])
+    if k in ('sat', 'tryfrom'):
+        # exact value of a saturating / checked operation (they differ from it only outside the type's range,
+        # which the sizes of a conformant file never reach)
+        if k == 'tryfrom':
+            return lin(t[1])
+        return lin(('bin', t[1], t[2], t[3], t[4]))
     if k == 'bin':
         op = t[1]
         if op == 'Add':
